@@ -664,6 +664,52 @@ mut('c10-single-return-not-wrapped', ['C10', 'C11'], OB,
 mut('c10-scalar-not-wrapped', ['C10'], OB,
     [("                else:\n                    return_values = [return_values]\n\n                r = message.MethodReturnMessage(", "                r = message.MethodReturnMessage(")], ['C10.D7'])
 
+mut('ok-c03-wrapper-table', ['C03', 'C14'], MS,
+    [("                if attr_name == 'path':\n                    hval = marshal.ObjectPath(hval)\n                elif attr_name == 'signature':\n                    hval = marshal.Signature(hval)\n                elif attr_name in ('unix_fds', 'reply_serial'):\n                    hval = marshal.UInt32(hval)\n",
+      "                wrap = {'path': marshal.ObjectPath,\n                        'signature': marshal.Signature,\n                        'unix_fds': marshal.UInt32,\n                        'reply_serial': marshal.UInt32}.get(attr_name)\n                if wrap is not None:\n                    hval = wrap(hval)\n")], kind='benign',
+    note='header wrapping spelled as a table lookup instead of an if/elif chain')
+
+# ---- more behaviour-preserving variants ---------------------------------------------
+mut('ok-c04-unpack-from', ['C04'], PR,
+    [("                    body_len = struct.unpack(\n                        self._endian + 'I', self._buffer[4:8])[0]\n                    harr_len = struct.unpack(\n                        self._endian + 'I', self._buffer[12:16])[0]",
+      "                    body_len = struct.unpack_from(\n                        self._endian + 'I', self._buffer, 4)[0]\n                    harr_len = struct.unpack_from(\n                        self._endian + 'I', self._buffer, 12)[0]")], kind='benign')
+mut('ok-c08-pop-entry', ['C08', 'C11'], CL,
+    [("        d, timeout = self._pendingCalls.get(mret.reply_serial, (None, None))\n        if timeout:\n            timeout.cancel()\n        if d:\n            del self._pendingCalls[mret.reply_serial]\n            d.callback(mret)",
+      "        entry = self._pendingCalls.pop(mret.reply_serial, None)\n        if entry is None:\n            return\n        d, timeout = entry\n        if timeout:\n            timeout.cancel()\n        d.callback(mret)")], kind='benign')
+mut('ok-c20-getattr-oobfds', ['C20'], PR,
+    [("        if hasattr(msg, 'oobFDs') and msg.oobFDs:\n            for fd in msg.oobFDs:\n                self.transport.sendFileDescriptor(fd)",
+      "        for fd in getattr(msg, 'oobFDs', None) or ():\n            self.transport.sendFileDescriptor(fd)")], kind='benign')
+mut('ok-c06-begin-early-raise', ['C06'], AU,
+    [("        if self.state == 'WaitingForBegin':\n            self.authenticated = True\n            self.guid = self.current_mech.getUserName()\n            self.current_mech = None\n        else:\n            raise DBusAuthenticationFailed('Protocol violation')",
+      "        if self.state != 'WaitingForBegin':\n            raise DBusAuthenticationFailed('Protocol violation')\n        self.authenticated = True\n        self.guid = self.current_mech.getUserName()\n        self.current_mech = None")], kind='benign')
+mut('ok-c17-read-substring', ['C17'], OB,
+    [("        if p.iprop.access == 'write':\n            raise Exception('Property is not readable')", "        if 'read' not in p.iprop.access:\n            raise Exception('Property is not readable')")], kind='benign')
+mut('ok-c09-swap-callbacks', ['C09'], CL,
+    [("            for cb in list(self._dcCallbacks):\n                cb(self, reason)", "            callbacks, self._dcCallbacks = self._dcCallbacks, []\n            for cb in callbacks:\n                cb(self, reason)")], kind='benign')
+mut('ok-c16-export-local-path', ['C16'], OB,
+    [("        o = IDBusObject(dbusObject)\n        self.exports[o.getObjectPath()] = o\n", "        o = IDBusObject(dbusObject)\n        path = o.getObjectPath()\n        self.exports[path] = o\n")], kind='benign')
+mut('ok-c05-guard-not', ['C05', 'C01'], M,
+    [("        if nbytes == 0:\n", "        if not nbytes:\n")], kind='benign')
+mut('ok-c03-flags-local', ['C03', 'C10'], MS,
+    [("    m.expectReply = not (hval[2] & 0x1)\n    m.autoStart = not (hval[2] & 0x2)", "    flags = hval[2]\n    m.expectReply = (flags & 1) == 0\n    m.autoStart = (flags & 2) == 0")], kind='benign')
+mut('ok-c19-continue-style', ['C19', 'C05'], M,
+    [("            x = find_end(i + 1, '(', ')')\n            yield compoundSig[i:x + 1]\n            i = x\n", "            x = find_end(i + 1, '(', ')')\n            yield compoundSig[i:x + 1]\n            i = x + 1\n            continue\n")], kind='benign')
+mut('ok-c13-early-returns', ['C13'], BU,
+    [("            if owner is caller:\n                # Update the replacement flag\n                owner.busNames[name] = allow_replacement\n\n                return client.NAME_ALREADY_OWNER\n            else:\n                if replace_existing and owner.busNames[name]:",
+      "            if owner is caller:\n                # Update the replacement flag\n                owner.busNames[name] = allow_replacement\n\n                return client.NAME_ALREADY_OWNER\n            if True:\n                if replace_existing and owner.busNames[name]:")], kind='benign')
+mut('ok-c12-rule-match-local', ['C12'], RT,
+    [("                ns = self.path_namespace\n                if m.path is None or not (\n                    m.path == ns\n                    or m.path.startswith(ns.rstrip('/') + '/')\n                ):\n                    return",
+      "                ns = self.path_namespace\n                path = m.path\n                if path is None:\n                    return\n                below = path.startswith(ns.rstrip('/') + '/')\n                if path != ns and not below:\n                    return")], kind='benign')
+mut('ok-c10-unknown-object-inline', ['C10', 'C11'], OB,
+    [("            self._send_err(\n                msg,\n                'org.freedesktop.DBus.Error.UnknownObject',\n                '%s is not an object provided by this process.' % (msg.path),\n            )\n            return",
+      "            r = message.ErrorMessage(\n                'org.freedesktop.DBus.Error.UnknownObject',\n                msg.serial,\n                body=['%s is not an object provided by this process.' % (msg.path)],\n                signature='s',\n                destination=msg.sender,\n            )\n            self.conn.sendMessage(r)\n            return")], kind='benign')
+mut('ok-c14-sendmessage-early-return', ['C14'], BU,
+    [("            if not msg.destination:\n                # no destination: a broadcast, delivered through the match\n                # rules of the connected clients\n                self.router.routeMessage(msg)\n            elif not msg.destination == 'org.freedesktop.DBus':",
+      "            if msg.destination is None or msg.destination == '':\n                self.router.routeMessage(msg)\n            elif msg.destination != 'org.freedesktop.DBus':")], kind='benign')
+mut('ok-c07-ok-negotiate-flag', ['C07'], AU,
+    [("            if self.unixFDSupport:\n                self.sendAuthMessage(b'NEGOTIATE_UNIX_FD')\n            else:\n                self.sendAuthMessage(b'BEGIN')\n                self.authenticated = True",
+      "            if not self.unixFDSupport:\n                self.sendAuthMessage(b'BEGIN')\n                self.authenticated = True\n                return\n            self.sendAuthMessage(b'NEGOTIATE_UNIX_FD')")], kind='benign')
+
 # benign variants --------------------------------------------------------------
 mut('ok-int16-condexpr', ['C01', 'C02'], M,
     [("return 2, [struct.pack(lendian and '<h' or '>h', var)]",
